@@ -302,7 +302,7 @@ impl Report {
     pub fn mark_inconclusive(&self, why: impl Into<String>) {
         self.inconclusive.store(true, Ordering::SeqCst);
         let why = why.into();
-        eprintln!("INCONCLUSIVE property={} {}", self.prop, why);
+        diag(&format!("INCONCLUSIVE property={} {}", self.prop, why));
         self.lock().notes.push(format!("inconclusive: {why}"));
     }
 
@@ -423,10 +423,10 @@ impl Report {
         let _ = std::fs::create_dir_all(&dir);
         let path = dir.join(format!("{}.json", self.prop));
         if let Err(e) = std::fs::write(&path, serde_json::to_string_pretty(&doc).unwrap()) {
-            eprintln!("cannot write evidence {}: {e}", path.display());
+            diag(&format!("cannot write evidence {}: {e}", path.display()));
             return 2;
         }
-        eprintln!(
+        diag(&format!(
             "[{}] tier={} seed={} evaluations={} distinct_nontrivial={} violations={} wall={:.1}s",
             self.prop,
             tier.name(),
@@ -435,7 +435,7 @@ impl Report {
             distinct,
             g.violations.len(),
             wall
-        );
+        ));
         if !g.violations.is_empty() {
             1
         } else if self.inconclusive.load(Ordering::SeqCst) {
@@ -481,6 +481,56 @@ pub fn guarded<C>(check: &(dyn Fn(&C) -> CheckResult + Sync), case: &C) -> Check
     match catch_unwind(AssertUnwindSafe(|| check(case))) {
         Ok(r) => r,
         Err(p) => Err(Fail::new("panic", format!("panicked: {}", panic_message(p)))),
+    }
+}
+
+static ORIG_STDERR: std::sync::OnceLock<std::sync::Mutex<std::fs::File>> = std::sync::OnceLock::new();
+
+/// The harness's own diagnostics go to the real stderr even while fd 2 is filtered.
+pub fn diag(line: &str) {
+    use std::io::Write;
+    match ORIG_STDERR.get() {
+        Some(f) => {
+            let _ = writeln!(f.lock().unwrap_or_else(|e| e.into_inner()), "{line}");
+        }
+        None => eprintln!("{line}"),
+    }
+}
+
+/// repe's servers log every connection-level error with `eprintln!("[repe] ...")`;
+/// fault-injecting checks produce tens of thousands of such lines. Route fd 2
+/// through a pipe and drop exactly those lines (everything else is forwarded).
+pub fn filter_repe_stderr() {
+    use std::io::{BufRead, Write};
+    use std::os::fd::FromRawFd;
+    unsafe {
+        let orig = libc::dup(2);
+        let mut fds = [0i32; 2];
+        if orig < 0 || libc::pipe(fds.as_mut_ptr()) != 0 {
+            return;
+        }
+        libc::dup2(fds[1], 2);
+        libc::close(fds[1]);
+        let _ = ORIG_STDERR.set(std::sync::Mutex::new(std::fs::File::from_raw_fd(orig)));
+        let rd = std::fs::File::from_raw_fd(fds[0]);
+        std::thread::spawn(move || {
+            let mut rd = std::io::BufReader::new(rd);
+            let mut line = Vec::new();
+            loop {
+                line.clear();
+                match rd.read_until(b'\n', &mut line) {
+                    Ok(0) | Err(_) => break,
+                    Ok(_) => {
+                        if line.starts_with(b"[repe]") {
+                            continue;
+                        }
+                        if let Some(f) = ORIG_STDERR.get() {
+                            let _ = f.lock().unwrap_or_else(|e| e.into_inner()).write_all(&line);
+                        }
+                    }
+                }
+            }
+        });
     }
 }
 
